@@ -10,6 +10,7 @@ use std::sync::Mutex;
 
 pub mod codec;
 pub mod demux;
+pub mod forwarded;
 pub mod hello;
 pub mod http1;
 pub mod icmp;
